@@ -79,7 +79,11 @@ def gen_history(r):
         x = r.random()
         dyn = sorted(m.dyn)
         live = dyn + [STATIC]
-        if x < 0.22 or (not dyn and x < 0.5):
+        if x >= 0.95 and dyn:
+            # the application registers an observable resource of its own through the API, at
+            # a moment of its choosing (not from inside the unknown-resource handler)
+            st = ("appres", "app%d" % sum(1 for s_ in steps if s_[0] == "appres"))
+        elif x < 0.22 or (not dyn and x < 0.5):
             st = ("create", r.choice(NAMES))
         elif x < 0.32 and dyn:
             st = ("delete", r.choice(dyn), r.choice(["request", "request", "api"]))
@@ -450,6 +454,11 @@ def play(srv, steps, model, on_boundary):
                     srv.run()
                     if (peer_addr(p), tokhex) in srv.rst:
                         raise common.Inconclusive("no notification to reset for %r" % (st,))
+        elif kind == "appres":
+            a = m
+            model["A"] = a
+            srv.cmd("res 0 %s body=counter obs=1" % st[1].encode().hex())
+            srv.run()
         elif kind == "notify":
             a = m
             model["A"] = a
